@@ -1395,3 +1395,93 @@ def arrays_copied_as_given(ctx: Ctx, modules: tuple[str, ...] = ("cirkit.backend
     if n_from == 0:
         out.append(unres("R14w", "cirkit.backend.torch.initializers", "contiguous-before-from_numpy", "no torch.from_numpy in the initialiser modules (another formulation): no verdict", ""))
     return out
+
+
+# ------------------------------------------------------------------------------------------ R14x
+def positional_records_agree_by_name(ctx: Ctx, modules: tuple[str, ...] = ("cirkit",)) -> list[Ob]:
+    """R14x -- a record filled positionally gets each value in the field of its name.
+
+    For every call that constructs a repo dataclass / NamedTuple with two or more *positional*
+    arguments whose names carry a field name (``self.is_smooth`` / ``is_smooth`` / ``smooth`` for a
+    field ``smooth``): the i-th positional argument has to name the i-th declared field.  Fields of
+    one type (four booleans) type-check in any order -- reordering the declaration, or the call,
+    silently swaps the flags a consumer reads (``properties.smooth`` answering decomposability)."""
+    out: list[Ob] = []
+    records: dict[str, list[str]] = {}
+    for c in ctx.repo.classes.values():
+        if not c.module.name.startswith(modules):
+            continue
+        is_rec = any((dotted(d.func if isinstance(d, ast.Call) else d) or "").split(".")[-1] == "dataclass" for d in c.node.decorator_list) or any((dotted(b) or "").split(".")[-1] == "NamedTuple" for b in c.node.bases)
+        if not is_rec:
+            continue
+        fields = [n.target.id for n in c.node.body if isinstance(n, ast.AnnAssign) and isinstance(n.target, ast.Name) and "ClassVar" not in unparse(n.annotation)]
+        if len(fields) >= 2:
+            records[c.name] = fields
+    n_calls = 0
+    for f in ctx.repo.iter_functions():
+        if not f.module.name.startswith(modules):
+            continue
+        for n in walk_no_nested(f.node):
+            if not (isinstance(n, ast.Call) and (dotted(n.func) or "").split(".")[-1] in records and len(n.args) >= 2):
+                continue
+            fields = records[(dotted(n.func) or "").split(".")[-1]]
+            if any(isinstance(a, ast.Starred) for a in n.args):
+                continue
+
+            def tail(a: ast.AST) -> str | None:
+                if isinstance(a, ast.Attribute):
+                    return a.attr
+                if isinstance(a, ast.Name):
+                    return a.id
+                return None
+
+            names = [tail(a) for a in n.args]
+            # which field does each argument name? (exact, or with an is_/has_/num_ prefix, or underscore-private)
+            def field_of(nm: str | None) -> str | None:
+                if nm is None:
+                    return None
+                cands = [fl for fl in fields if nm == fl or nm.lstrip("_") == fl or nm in (f"is_{fl}", f"has_{fl}", f"_{fl}", f"{fl}_")]
+                return cands[0] if len(cands) == 1 else None
+
+            named = [field_of(nm) for nm in names]
+            if sum(1 for x in named if x is not None) < 2:
+                continue
+            n_calls += 1
+            loc = f"{f.module.relpath}:{n.lineno}"
+            inst = f"positional:{(dotted(n.func) or '').split('.')[-1]}"
+            wrong = [(i, names[i], fields[i], named[i]) for i in range(min(len(named), len(fields))) if named[i] is not None and named[i] != fields[i]]
+            if wrong:
+                i, nm, fl, meant = wrong[0]
+                out.append(viol("R14x", f.qualname, inst, f"positional argument {i} is `{nm}` (the value of field `{meant}`) but field {i} of {(dotted(n.func) or '').split('.')[-1]} is `{fl}` (declared order {fields}): the flags are stored under each other's names", loc))
+            else:
+                out.append(ok("R14x", f.qualname, inst, f"positional arguments {names} follow the declared fields {fields[:len(names)]}", loc))
+    out.append(ok("R14x", "cirkit", "positional-records", f"{n_calls} positional construction(s) of a record whose arguments carry field names", "", nontrivial=False))
+    return out
+
+
+# ------------------------------------------------------------------------------------------ R14y
+RNG_STATE_CALLS = {"manual_seed", "manual_seed_all", "seed", "fork_rng", "set_rng_state", "set_rng_state_all"}
+
+
+def sampling_leaves_rng_alone(ctx: Ctx, modules: tuple[str, ...] = ("cirkit.backend.torch",)) -> list[Ob]:
+    """R14y -- drawing samples consumes the global random stream; it never re-seeds, forks or restores it.
+
+    Two calls of a sampling query are two independent draws.  Code on the sampling path that runs
+    under ``torch.random.fork_rng()`` (the state is restored on exit), or that calls ``manual_seed``
+    / ``set_rng_state``, makes every call return the same samples -- each call looks perfectly
+    distributed on its own."""
+    out: list[Ob] = []
+    n_fn = 0
+    for f in ctx.repo.iter_functions():
+        if not f.module.name.startswith(modules):
+            continue
+        n_fn += 1
+        for n in walk_no_nested(f.node):
+            if isinstance(n, ast.Call):
+                nm = (dotted(n.func) or "").split(".")[-1]
+                full = dotted(n.func) or ""
+                if nm in RNG_STATE_CALLS and ("torch" in full or "random" in full or "np." in full or "numpy" in full or nm in ("fork_rng", "set_rng_state")):
+                    out.append(viol("R14y", f.qualname, f"rng-state:{nm}", f"`{unparse(n)[:60]}` changes / restores the state of the random generator inside the torch backend: every call then draws the same numbers", f"{f.module.relpath}:{n.lineno}"))
+    if not out:
+        out.append(ok("R14y", modules[0], "rng-state", f"no seeding / forking / restoring of a random generator in {n_fn} functions of the torch backend", ""))
+    return out
